@@ -79,7 +79,7 @@ func C16(c *Ctx) {
 	r.Rule("R16.1", "gating: in checkIBTP a request from a local source is accepted only across the no-error edge of checkSourceAvailability; the target's availability error becomes the isFailed flag of beginTransaction; checkServiceAvailability accepts only an existing service whose IsAvailable() is true; checkTargetAvailability accepts a local destination only across getServiceByID ok, IsAvailable() true and CheckPermission(source) true.")
 	r.Rule("R16.2", "lifecycle tables: every governance FSM literal (role, dapp, proposal strategy in the repository; appchain, service, rule, node in the pinned bitxhub-core) has no transition whose source is GovernanceForbidden, dynamic destinations only on reject, an approved logout ends in forbidden, and no transition takes a forbidden object to anything but forbidden/unavailable (pre-check tables wider than the FSM are reported as information).")
 	r.Rule("R16.4", "cascade: in AppchainManager.Manage, on the approved branch, event freeze reaches the cross-invoke PauseChainService, activate reaches UnPauseChainService, logout reaches ClearChainService and ClearRule before any successful return, each with its result tested; the per-service loops of the service manager call the per-service operation on every iteration.")
-	r.Rule("R16.5", "service cache coherence: the executor's service cache (consulted before ledger state) is fed from SERVICE events only across a receipt-success edge; rollbackBlocks resets it on every path that rolled the ledger back; every service-manager entry that changes a service's status posts the SERVICE event before returning success.")
+	r.Rule("R16.5", "service cache coherence: the executor's service cache (consulted before ledger state) is fed from SERVICE events only across a receipt-success edge; each event caches a record allocated in its own loop iteration; rollbackBlocks resets it on every path that rolled the ledger back; every service-manager entry that changes a service's status posts the SERVICE event before returning success.")
 	r.Rule("R16.7", "no verdict is dropped: for every checkTargetAvailability call of checkIBTP, at each accepting return that the call can reach, the returned target error has the call's error result among its origins (through the assignments and phis in between); a verdict that is only logged or lands in a shadowing variable lets a request to an unavailable or forbidden service through as a normal transaction.")
 	r.NotDecided = append(r.NotDecided, "composed behaviour over lifecycle histories; semantics of the looplab FSM engine (trusted)")
 
@@ -545,6 +545,35 @@ func C16(c *Ctx) {
 		}
 		n := c.behindEdges("R16.5", "applyTx", at, okEdges, c.throughHelpers(isStore), "receipt known successful", "serviceCache.Store")
 		r.Floor("R16.5", "service cache fills", n, 1)
+		// each event caches its own record: the object stored for a service is allocated in the iteration that
+		// decodes it - an object hoisted out of the event loop is shared by every key it was stored under, and the
+		// next SERVICE event of the transaction overwrites all of them
+		for _, in := range sites(at, isStore) {
+			call := in.(ssa.CallInstruction)
+			if !core.InLoop(in) || len(call.Common().Args) < 3 {
+				continue
+			}
+			val := call.Common().Args[2]
+			perEvent := true
+			nAlloc := 0
+			for _, o := range core.RetOrigins(val) {
+				v := core.Strip(o.V)
+				if mi, ok := v.(*ssa.MakeInterface); ok {
+					v = core.Strip(mi.X)
+				}
+				// a pointer variable decoded into (json.Unmarshal(data, &p)): the objects it may point to
+				for _, w := range varValues(at, v) {
+					if al, isAlloc := core.Strip(w).(*ssa.Alloc); isAlloc && al.Heap {
+						nAlloc++
+						if !blockReach(in.Block(), al.Block()) {
+							perEvent = false
+						}
+					}
+				}
+			}
+			r.Check(perEvent && nAlloc > 0, "R16.5", "applyTx: the cached service record is allocated per event", c.P.Pos(in.Pos()), "the stored object is created in the iteration that stores it",
+				"the object stored into the service cache is created outside the loop over the transaction's events (or its origin is not an allocation of this function): every key stored in this transaction holds the same object, and the last SERVICE event decoded into it overwrites the records cached for the other services - availability checks then use another service's status")
+		}
 	}
 	if rb := c.fn("R16.5", execPrefix+"rollbackBlocks"); rb != nil {
 		isRollback := callToMethod("Rollback")
@@ -612,9 +641,55 @@ func C16(c *Ctx) {
 				}
 				return false
 			}
-			isPost := func(in ssa.Instruction) bool {
+			directPost := func(in ssa.Instruction) bool {
 				call, ok := in.(ssa.CallInstruction)
 				return ok && core.StaticCallee(call) == post
+			}
+			// a helper of the contract that posts the event on every path on which it does not report a failure
+			// (publishServiceChange: audit event, then the SERVICE event; an error response when either fails)
+			postsAlways := map[*ssa.Function]int{}
+			isPost := func(in ssa.Instruction) bool {
+				if directPost(in) {
+					return true
+				}
+				call, ok := in.(ssa.CallInstruction)
+				if !ok {
+					return false
+				}
+				g := core.StaticCallee(call)
+				if g == nil || g == post || len(g.Blocks) == 0 || core.PkgOf(g) != core.ContractPkg || len(sites(g, directPost)) == 0 {
+					return false
+				}
+				if v, seen := postsAlways[g]; seen {
+					return v == 1
+				}
+				postsAlways[g] = 2
+				rs := core.Reach([]core.Point{core.EntryOf(g)}, directPost, nil)
+				ok2 := true
+				for _, ret := range core.Returns(g) {
+					if !rs.Has(ret) {
+						continue
+					}
+					// a return that skips the post must be a failure value
+					fail := len(ret.Results) > 0
+					for _, res := range ret.Results {
+						for _, o := range core.RetOrigins(res) {
+							cc, _ := core.CallOf(o.V)
+							if cc == nil || !(strings.HasSuffix(core.CalleeName(cc), "boltvm.Error") || strings.HasSuffix(core.CalleeName(cc), "fmt.Errorf") || strings.HasSuffix(core.CalleeName(cc), "boltvm.BError")) {
+								if _, isConstNil := core.Strip(o.V).(*ssa.Const); isConstNil || cc == nil {
+									fail = false
+								}
+							}
+						}
+					}
+					if !fail {
+						ok2 = false
+					}
+				}
+				if ok2 {
+					postsAlways[g] = 1
+				}
+				return ok2
 			}
 			for _, e := range sm.Entries {
 				if !e.Own || e.Fn == nil || len(sites(e.Fn, isChange)) == 0 {
